@@ -49,13 +49,11 @@ pub const TRANSPILED_SOURCE_FILE_EXTENSION: &str = ".transpiled.mmm";
 
 pub fn is_path_a_transpiled_source(path: &str) -> bool {
     fn ends_with_ignore_case(string: &str, pat: &str) -> bool {
-        for (c1, c2) in string.chars().rev().zip(pat.chars().rev()) {
-            if !c1.eq_ignore_ascii_case(&c2) {
-                return false;
-            }
-        }
+        let (string, pat) = (string.as_bytes(), pat.as_bytes());
 
-        true
+        // a string shorter than the pattern does not end with it (`d.mmm` is not `*.transpiled.mmm`)
+        string.len() >= pat.len()
+            && string[string.len() - pat.len()..].eq_ignore_ascii_case(pat)
     }
 
     ends_with_ignore_case(path, TRANSPILED_SOURCE_FILE_EXTENSION)
@@ -63,6 +61,11 @@ pub fn is_path_a_transpiled_source(path: &str) -> bool {
 
 pub fn transpile_file(path: &str, new_path: &str) -> Result<()> {
     let path = Path::new(&path);
+
+    if path == Path::new(new_path) {
+        // opening the output truncates it: the source would be lost before it is read
+        bail!("the transpiled file would be written over its source ({new_path})")
+    }
 
     let file = File::open(path)?;
     let functions = MultiProgress::new();
